@@ -25,7 +25,7 @@ type KnownFile struct {
 }
 
 // obligations checked per return site carry an @retN suffix; known findings are keyed without it
-var reRetSuffix = regexp.MustCompile(`@ret\d+`)
+var reRetSuffix = regexp.MustCompile(`@ret\d+|/\d+$`)
 
 func loadKnown(verif string) KnownFile {
 	var kf KnownFile
